@@ -159,6 +159,9 @@ type httpRec struct {
 	Findings  []finding  `json:"findings,omitempty"`
 
 	NoCacheServed bool `json:"no_cache_response_served_without_validation,omitempty"`
+
+	// phaseCalls (optional) are the requests per phase for the cached resource itself, where a phase makes further requests
+	phaseCalls []int
 }
 
 const httpSlack = 2 * time.Second
@@ -315,7 +318,29 @@ func (e *env) httpSpecs() []httpSpec {
 			}
 		}
 	}
+	// Cache-Control on several lines, none of them naming max-age: the lifetime is Expires minus Date (RFC 7234 4.2.1), where
+	// Date is the ORIGIN's clock (ahead of / behind the cache's): Expires at, just after and before that Date
+	var skewedLines []httpSpec
+	for _, fl := range []string{"", "public", "private", "no-cache"} {
+		for _, more := range [][]string{{"public"}, {"must-revalidate"}, {"private", "must-revalidate"}, {"no-transform", "public", "must-revalidate"}} {
+			if fl == "" && len(more) < 2 {
+				continue // one line only
+			}
+			for _, dt := range []int{3600, 30, -30, -3600} {
+				for _, rel := range []int{-5, 0, 2, 5, 3600} {
+					for _, ag := range []*int{nil, ip(3)} {
+						for _, dttl := range dttls {
+							skewedLines = append(skewedLines, httpSpec{Flag: fl, CCLines: more, Expires: strconv.Itoa(dt + rel), Date: strconv.Itoa(dt), Age: ag, DefaultTTL: dttl, Method: "GET"})
+						}
+					}
+				}
+			}
+		}
+	}
 	fixed := []httpSpec{
+		{Flag: "public", CCLines: []string{"must-revalidate"}, Expires: "3600", Date: "3600", Method: "GET"},
+		{Flag: "public", CCLines: []string{"must-revalidate"}, Expires: "3602", Date: "3600", Method: "GET"},
+		{Flag: "private", CCLines: []string{"no-transform", "must-revalidate"}, Expires: "35", Date: "30", DefaultTTL: 30 * time.Second, Method: "GET"},
 		{MaxAge: ip(1), Date: "3600", Method: "GET"},
 		{MaxAge: ip(0), Date: "3600", Method: "GET"},
 		{MaxAge: ip(5), Date: "-3600", Method: "GET"},
@@ -331,14 +356,16 @@ func (e *env) httpSpecs() []httpSpec {
 			httpSpec{Expires: "3600", Age: ip(ag), Method: "GET"}, httpSpec{Age: ip(ag), DefaultTTL: 30 * time.Second, Method: "GET"})
 	}
 	if e.r.Thorough() {
-		return append(append(append(append(base, rest...), fixed...), dated...), lines...)
+		return append(append(append(append(append(base, rest...), fixed...), dated...), lines...), skewedLines...)
 	}
 	rng := e.r.Stream("http-specs")
 	rng.Shuffle(len(rest), func(i, j int) { rest[i], rest[j] = rest[j], rest[i] })
 	rng2 := e.r.Stream("http-specs-dated")
 	rng2.Shuffle(len(dated), func(i, j int) { dated[i], dated[j] = dated[j], dated[i] })
 	rng2.Shuffle(len(lines), func(i, j int) { lines[i], lines[j] = lines[j], lines[i] })
-	return append(append(append(append(base, rest[:250]...), fixed...), dated[:100]...), lines[:80]...)
+	rng3 := e.r.Stream("http-specs-skewed-lines")
+	rng3.Shuffle(len(skewedLines), func(i, j int) { skewedLines[i], skewedLines[j] = skewedLines[j], skewedLines[i] })
+	return append(append(append(append(append(base, rest[:250]...), fixed...), dated[:100]...), lines[:80]...), skewedLines[:60]...)
 }
 
 func (e *env) httpCache() {
@@ -362,6 +389,7 @@ func (e *env) httpCache() {
 		}
 	}
 	e.httpViaJWKS()
+	e.httpViaMetadata()
 	e.httpHitKeepsLifetime()
 }
 
@@ -423,6 +451,11 @@ func (e *env) runHTTP(rec *httpRec, c *ck.RecCache, run func(c *ck.RecCache) ck.
 	tmp := &caseRec{Mechanism: "http_cache", TTL: rec.Response.DefaultTTL.String(), TTLMode: "prototype"}
 	e.runPhases(tmp, c, adv, run)
 	rec.Phases, rec.Advance = tmp.Phases, tmp.Advance
+	if len(rec.phaseCalls) == len(rec.Phases) {
+		for i := range rec.Phases {
+			rec.Phases[i].ServerCalls = rec.phaseCalls[i]
+		}
+	}
 	judgeHTTP(rec)
 
 	nontrivial := rec.Phases[0].Outcome.Err == ""
@@ -458,6 +491,9 @@ func (e *env) runHTTP(rec *httpRec, c *ck.RecCache, run func(c *ck.RecCache) ck.
 	}
 	if len(h.CCLines) > 0 {
 		e.r.Count("http_cases_cache_control_on_several_lines", 1)
+		if h.dateOffset() != 0 && f.Source == "expires" {
+			e.r.Count("http_cases_cache_control_on_several_lines_expires_with_skewed_date", 1)
+		}
 	}
 	if h.hugeAge() {
 		e.r.Count("http_cases_age_beyond_duration_range", 1)
@@ -516,4 +552,6 @@ var jwksHTTPSpecs = []httpSpec{
 	{MaxAge: ip(3600), CCLines: []string{"no-store"}, Method: "GET"},
 	{Flag: "public", CCLines: []string{"max-age=0"}, DefaultTTL: time.Minute, Method: "GET"},
 	{MaxAge: ip(60), Age: ip(13835058055), Method: "GET"},
+	{Flag: "public", CCLines: []string{"must-revalidate"}, Expires: "3600", Date: "3600", Method: "GET"},
+	{Flag: "public", CCLines: []string{"must-revalidate"}, Expires: "3605", Date: "3600", Method: "GET"},
 }
